@@ -79,7 +79,7 @@ Definition msg_subjects (m : msg) : list uuid :=
 Definition view (pr : peer_state) :=
   (p_sync_types pr, t_mat pr, t_mesh pr, t_audio pr, p_id pr, p_order pr,
    p_out pr, p_cmdq pr, p_app_cmds pr, t_queue pr, n_inbox pr, t_u2e pr, t_e2u pr, p_ents pr,
-   p_next_ent pr).
+   p_next_ent pr, d_pending pr).
 
 (* ---------- the snapshot (build_full_sync): what it contains, on the state alone ------------ *)
 
@@ -122,29 +122,253 @@ Proof. unfold serve_all. destruct (class_enabled pr (KClass c)); reflexivity. Qe
 
 Lemma view_class_enabled a b k : view a = view b -> class_enabled a k = class_enabled b k.
 Proof.
-  unfold view. intros Hv. injection Hv as E1 E2 E3 E4 E5 E6 E7 E8 E9 E10 E11 E12 E13 E14 E15.
+  unfold view. intros Hv. injection Hv as E1 E2 E3 E4 E5 E6 E7 E8 E9 E10 E11 E12 E13 E14 E15 E16.
   unfold class_enabled. destruct k as [|[]]; congruence.
 Qed.
 
 Lemma view_id a b : view a = view b -> p_id a = p_id b.
 Proof.
-  unfold view. intros Hv. injection Hv as E1 E2 E3 E4 E5 E6 E7 E8 E9 E10 E11 E12 E13 E14 E15.
+  unfold view. intros Hv. injection Hv as E1 E2 E3 E4 E5 E6 E7 E8 E9 E10 E11 E12 E13 E14 E15 E16.
   congruence.
 Qed.
 
 Lemma view_mat a b : view a = view b -> t_mat a = t_mat b.
 Proof.
-  unfold view. intros Hv. injection Hv as E1 E2 E3 E4 E5 E6 E7 E8 E9 E10 E11 E12 E13 E14 E15.
+  unfold view. intros Hv. injection Hv as E1 E2 E3 E4 E5 E6 E7 E8 E9 E10 E11 E12 E13 E14 E15 E16.
   congruence.
 Qed.
 
-Lemma serve_all_msgs pr c m :
-  In m (serve_all pr c).2 -> class_enabled pr (KClass c) = true /\ exists a, m = MAsset c a (p_id pr).
+Lemma view_pending a b : view a = view b -> d_pending a = d_pending b.
 Proof.
-  unfold serve_all. destruct (class_enabled pr (KClass c)); cbn [snd]; [|intros []].
-  intros Hin. split; [reflexivity|]. apply elem_of_list_In in Hin.
-  apply elem_of_list_fmap in Hin as ([a v] & -> & _). exists a. reflexivity.
+  unfold view. intros Hv. injection Hv as E1 E2 E3 E4 E5 E6 E7 E8 E9 E10 E11 E12 E13 E14 E15 E16.
+  congruence.
 Qed.
+
+(* ---------- downloads under way (pending_of): each id once, with the owner of the latest request -- *)
+
+Lemma kind_num_class_inj c c' : kind_num (KClass c) = kind_num (KClass c') -> c = c'.
+Proof. destruct c, c'; cbn; intros H; first [reflexivity|discriminate H]. Qed.
+
+(* the list pending_of deduplicates: the requests of class c, oldest first *)
+Definition pending_reqs (pr : peer_state) (c : aclass) : list (uuid * peer) :=
+  omap (fun x : aclass * uuid * peer =>
+          if kind_num (KClass x.1.1) =? kind_num (KClass c) then Some (x.1.2, x.2) else None) (d_pending pr).
+Definition keep_last (l : list (uuid * peer)) : list (uuid * peer) :=
+  foldr (fun '(a, o) acc => if existsb (fun y : uuid * peer => fst y =? a) acc then acc else (a, o) :: acc) [] l.
+
+Lemma pending_of_eq pr c : pending_of pr c = keep_last (pending_reqs pr c).
+Proof. reflexivity. Qed.
+
+Lemma pending_reqs_In pr c a o : In (a, o) (pending_reqs pr c) <-> In (c, a, o) (d_pending pr).
+Proof.
+  unfold pending_reqs. rewrite <- !elem_of_list_In, elem_of_list_omap. split.
+  - intros ([[c' a'] o'] & Hin & Hf). cbn [fst snd] in Hf.
+    destruct (kind_num (KClass c') =? kind_num (KClass c)) eqn:E; [|discriminate].
+    apply N.eqb_eq, kind_num_class_inj in E. injection Hf as <- <-. subst c'. exact Hin.
+  - intros Hin. exists (c, a, o). split; [exact Hin|]. cbn [fst snd]. rewrite N.eqb_refl. reflexivity.
+Qed.
+
+Lemma has_id_true (l : list (uuid * peer)) a :
+  existsb (fun y : uuid * peer => fst y =? a) l = true <-> exists o, In (a, o) l.
+Proof.
+  rewrite existsb_exists. split.
+  - intros ([a' o] & Hin & He). apply N.eqb_eq in He. cbn [fst] in He. subst a'. exists o. exact Hin.
+  - intros (o & Hin). exists (a, o). split; [exact Hin|apply N.eqb_refl].
+Qed.
+
+Lemma keep_last_cons a o l :
+  keep_last ((a, o) :: l) =
+    if existsb (fun y : uuid * peer => fst y =? a) (keep_last l) then keep_last l else (a, o) :: keep_last l.
+Proof. reflexivity. Qed.
+
+(* the same ids *)
+Lemma keep_last_ids l a : (exists o, In (a, o) (keep_last l)) <-> (exists o, In (a, o) l).
+Proof.
+  induction l as [|[a0 o0] l IH]; [reflexivity|]. rewrite keep_last_cons.
+  destruct (existsb (fun y : uuid * peer => fst y =? a0) (keep_last l)) eqn:E.
+  - rewrite IH. split.
+    + intros (o & Ho). exists o. right. exact Ho.
+    + intros (o & [Heq|Ho]); [|exists o; exact Ho]. injection Heq as -> ->.
+      apply IH. apply has_id_true. exact E.
+  - split.
+    + intros (o & [Heq|Ho]); [exists o; left; exact Heq|].
+      destruct (proj1 IH (ex_intro _ o Ho)) as (o' & Ho'). exists o'. right. exact Ho'.
+    + intros (o & [Heq|Ho]); [exists o; left; exact Heq|].
+      destruct (proj2 IH (ex_intro _ o Ho)) as (o' & Ho'). exists o'. right. exact Ho'.
+Qed.
+
+(* an entry of the result is the LAST request of its id *)
+Lemma keep_last_latest l a o :
+  In (a, o) (keep_last l) <-> exists l1 l2, l = l1 ++ (a, o) :: l2 /\ forall o', ~ In (a, o') l2.
+Proof.
+  induction l as [|[a0 o0] l IH].
+  - split; [intros []|]. intros (l1 & l2 & Heq & _). destruct l1; discriminate Heq.
+  - rewrite keep_last_cons.
+    destruct (existsb (fun y : uuid * peer => fst y =? a0) (keep_last l)) eqn:E.
+    + rewrite IH. split.
+      * intros (l1 & l2 & -> & Hl). exists ((a0, o0) :: l1), l2. split; [reflexivity|exact Hl].
+      * intros (l1 & l2 & Heq & Hl). destruct l1 as [|x l1]; cbn [app] in Heq.
+        -- injection Heq as -> -> ->. exfalso.
+           apply has_id_true in E. apply (proj1 (keep_last_ids _ _)) in E as (o' & Ho'). exact (Hl o' Ho').
+        -- injection Heq as _ ->. exists l1, l2. split; [reflexivity|exact Hl].
+    + assert (Hno : forall o', ~ In (a0, o') l).
+      { intros o' Ho'. assert (Hx : exists o1, In (a0, o1) (keep_last l))
+          by (apply keep_last_ids; exists o'; exact Ho').
+        apply has_id_true in Hx. congruence. }
+      split.
+      * intros [Heq|Hin].
+        -- injection Heq as -> ->. exists [], l. split; [reflexivity|exact Hno].
+        -- apply IH in Hin as (l1 & l2 & -> & Hl). exists ((a0, o0) :: l1), l2. split; [reflexivity|exact Hl].
+      * intros (l1 & l2 & Heq & Hl). destruct l1 as [|x l1]; cbn [app] in Heq.
+        -- injection Heq as -> -> ->. left. reflexivity.
+        -- injection Heq as _ ->. right. apply IH. exists l1, l2. split; [reflexivity|exact Hl].
+Qed.
+
+Lemma keep_last_In l x : In x (keep_last l) -> In x l.
+Proof.
+  destruct x as [a o]. intros H. apply keep_last_latest in H as (l1 & l2 & -> & _).
+  apply in_or_app. right. left. reflexivity.
+Qed.
+
+(* each id once *)
+Lemma keep_last_fun l a o o' : In (a, o) (keep_last l) -> In (a, o') (keep_last l) -> o = o'.
+Proof.
+  intros H1 H2. apply keep_last_latest in H1 as (l1 & l2 & -> & Hl).
+  apply keep_last_latest in H2 as (l1' & l2' & Heq & Hl').
+  revert l1' Heq. induction l1 as [|x l1 IH]; intros l1' Heq; cbn [app] in Heq.
+  - destruct l1' as [|y l1']; cbn [app] in Heq; [congruence|].
+    injection Heq as _ ->. exfalso. apply (Hl o'). apply in_or_app. right. left. reflexivity.
+  - destruct l1' as [|y l1']; cbn [app] in Heq.
+    + injection Heq as -> <-. exfalso. apply (Hl' o). apply in_or_app. right. left. reflexivity.
+    + injection Heq as _ Heq. exact (IH l1' Heq).
+Qed.
+
+Lemma keep_last_NoDup l : NoDup (fst <$> keep_last l).
+Proof.
+  induction l as [|[a0 o0] l IH]; [constructor|]. rewrite keep_last_cons.
+  destruct (existsb (fun y : uuid * peer => fst y =? a0) (keep_last l)) eqn:E; [exact IH|].
+  cbn [fmap list_fmap fst]. constructor; [|exact IH].
+  intros Hin. apply elem_of_list_fmap in Hin as ([a' o'] & Ha & Hin). cbn [fst] in Ha. subst a'.
+  assert (Hx : existsb (fun y : uuid * peer => fst y =? a0) (keep_last l) = true)
+    by (apply has_id_true; exists o'; apply elem_of_list_In; exact Hin).
+  congruence.
+Qed.
+
+(* a download of id a of class c is under way *)
+Definition download_pending (pr : peer_state) (c : aclass) (a : uuid) : Prop :=
+  exists o, In (c, a, o) (d_pending pr).
+
+(* o is the owner named by the latest pending request of (c, a) *)
+Definition latest_owner (pr : peer_state) (c : aclass) (a : uuid) (o : peer) : Prop :=
+  exists l1 l2, d_pending pr = l1 ++ (c, a, o) :: l2 /\ forall o', ~ In (c, a, o') l2.
+
+Lemma pending_of_In pr c a o : In (a, o) (pending_of pr c) -> In (c, a, o) (d_pending pr).
+Proof. rewrite pending_of_eq. intros H. apply keep_last_In in H. apply pending_reqs_In. exact H. Qed.
+
+Lemma pending_of_ids pr c a : (exists o, In (a, o) (pending_of pr c)) <-> download_pending pr c a.
+Proof.
+  rewrite pending_of_eq, keep_last_ids. unfold download_pending.
+  split; intros (o & Ho); exists o; apply pending_reqs_In; exact Ho.
+Qed.
+
+Lemma pending_of_fun pr c a o o' : In (a, o) (pending_of pr c) -> In (a, o') (pending_of pr c) -> o = o'.
+Proof. rewrite pending_of_eq. apply keep_last_fun. Qed.
+
+Lemma pending_of_NoDup pr c : NoDup (fst <$> pending_of pr c).
+Proof. rewrite pending_of_eq. apply keep_last_NoDup. Qed.
+
+Lemma pending_reqs_app_inv c : forall (d : list (aclass * uuid * peer)) l1 a o l2,
+  omap (fun x : aclass * uuid * peer =>
+          if kind_num (KClass x.1.1) =? kind_num (KClass c) then Some (x.1.2, x.2) else None) d
+    = l1 ++ (a, o) :: l2 ->
+  exists d1 d2, d = d1 ++ (c, a, o) :: d2 /\
+    l2 = omap (fun x : aclass * uuid * peer =>
+                 if kind_num (KClass x.1.1) =? kind_num (KClass c) then Some (x.1.2, x.2) else None) d2.
+Proof.
+  induction d as [|[[c' a'] o'] d IH]; intros l1 a o l2 Heq.
+  - destruct l1; discriminate Heq.
+  - cbn [omap list_omap fst snd] in Heq.
+    destruct (kind_num (KClass c') =? kind_num (KClass c)) eqn:E.
+    + apply N.eqb_eq, kind_num_class_inj in E. subst c'. destruct l1 as [|y l1]; cbn [app] in Heq.
+      * injection Heq as -> -> <-. exists [], d. split; reflexivity.
+      * injection Heq as _ Heq. destruct (IH _ _ _ _ Heq) as (d1 & d2 & -> & ->).
+        exists ((c, a', o') :: d1), d2. split; reflexivity.
+    + destruct (IH _ _ _ _ Heq) as (d1 & d2 & -> & ->).
+      exists ((c', a', o') :: d1), d2. split; reflexivity.
+Qed.
+
+(* the entries of pending_of: exactly the latest request of each id under download *)
+Lemma pending_of_latest pr c a o : In (a, o) (pending_of pr c) <-> latest_owner pr c a o.
+Proof.
+  rewrite pending_of_eq, keep_last_latest. unfold latest_owner. split.
+  - intros (l1 & l2 & Heq & Hl). unfold pending_reqs in Heq.
+    destruct (pending_reqs_app_inv c _ _ _ _ _ Heq) as (d1 & d2 & Hd & ->).
+    exists d1, d2. split; [exact Hd|]. intros o' Ho'. apply (Hl o').
+    apply elem_of_list_In, elem_of_list_omap. exists (c, a, o'). split; [apply elem_of_list_In; exact Ho'|].
+    cbn [fst snd]. rewrite N.eqb_refl. reflexivity.
+  - intros (d1 & d2 & Hd & Hl). unfold pending_reqs. rewrite Hd, omap_app. cbn [omap list_omap fst snd].
+    rewrite N.eqb_refl. eexists _, _. split; [reflexivity|].
+    intros o' Ho'. apply elem_of_list_In, elem_of_list_omap in Ho' as ([[c' a'] o''] & Hin & Hf).
+    cbn [fst snd] in Hf. destruct (kind_num (KClass c') =? kind_num (KClass c)) eqn:E; [|discriminate].
+    apply N.eqb_eq, kind_num_class_inj in E. injection Hf as -> ->. subst c'.
+    apply (Hl o'). apply elem_of_list_In. exact Hin.
+Qed.
+
+Lemma latest_owner_pending pr c a o : latest_owner pr c a o -> In (c, a, o) (d_pending pr).
+Proof. intros (l1 & l2 & -> & _). apply in_or_app. right. left. reflexivity. Qed.
+
+Lemma is_pending_true pr c a :
+  existsb (fun y : uuid * peer => fst y =? a) (pending_of pr c) = true <-> download_pending pr c a.
+Proof. rewrite has_id_true. apply pending_of_ids. Qed.
+
+Lemma is_pending_false pr c a :
+  existsb (fun y : uuid * peer => fst y =? a) (pending_of pr c) = false <-> ~ download_pending pr c a.
+Proof. rewrite <- is_pending_true. destruct (existsb _ _); split; congruence. Qed.
+
+(* the assets serve_all serves and announces as this peer's own: those with no download under way *)
+Definition served_assets (pr : peer_state) (c : aclass) : list (uuid * N) :=
+  filter (fun x : uuid * N => negb (existsb (fun y : uuid * peer => fst y =? fst x) (pending_of pr c)))
+         (assets_of_kind pr (KClass c)).
+
+Lemma served_assets_In pr c a v :
+  In (a, v) (served_assets pr c) <-> In (a, v) (assets_of_kind pr (KClass c)) /\ ~ download_pending pr c a.
+Proof.
+  unfold served_assets. rewrite <- !elem_of_list_In, elem_of_list_filter. cbn [fst].
+  rewrite <- is_pending_false. destruct (existsb _ _); cbn [negb]; split; intros [H1 H2]; split;
+    first [assumption|reflexivity|exact I|discriminate H2|destruct H1].
+Qed.
+
+Lemma serve_all_enabled pr c :
+  class_enabled pr (KClass c) = true ->
+  serve_all pr c =
+    (pr <| h_cache := foldl (fun h '(a, v) => <[akey (KClass c) a := v]> h) (h_cache pr) (served_assets pr c) |>,
+     ((fun '(a, _) => MAsset c a (p_id pr)) <$> served_assets pr c) ++
+     ((fun '(a, o) => MAsset c a o) <$> pending_of pr c)).
+Proof. intros He. unfold serve_all. rewrite He. reflexivity. Qed.
+
+(* every announcement of the class part of the snapshot: the class is enabled and either the asset is
+   stored here, no download of its id is under way, and it is announced as this peer's own, or a
+   download of the id is under way and the owner is the one the latest request names *)
+Lemma serve_all_msgs pr c m :
+  In m (serve_all pr c).2 ->
+  class_enabled pr (KClass c) = true /\
+  exists a o, m = MAsset c a o /\
+    ((o = p_id pr /\ ~ download_pending pr c a /\ exists v, In (a, v) (assets_of_kind pr (KClass c))) \/
+     In (a, o) (pending_of pr c)).
+Proof.
+  destruct (class_enabled pr (KClass c)) eqn:He.
+  2:{ unfold serve_all. rewrite He. intros []. }
+  rewrite (serve_all_enabled pr c He). cbn [snd].
+  intros Hin. split; [reflexivity|]. apply in_app_or in Hin as [Hin|Hin]; apply elem_of_list_In in Hin.
+  - apply elem_of_list_fmap in Hin as ([a v] & -> & Hin). exists a, (p_id pr). split; [reflexivity|left].
+    apply elem_of_list_In, served_assets_In in Hin as [H1 H2]. split; [reflexivity|]. split; [exact H2|].
+    exists v. exact H1.
+  - apply elem_of_list_fmap in Hin as ([a o] & -> & Hin). exists a, o. split; [reflexivity|right].
+    apply elem_of_list_In. exact Hin.
+Qed.
+
+Lemma view_pending_of a b c : view a = view b -> pending_of a c = pending_of b c.
+Proof. intros Hv. unfold pending_of. rewrite (view_pending _ _ Hv). reflexivity. Qed.
 
 Lemma In_concat_fmap {A B} (f : A -> list B) (l : list A) (y : B) :
   In y (concat (f <$> l)) -> exists x, In x l /\ In y (f x).
@@ -169,18 +393,58 @@ Qed.
 Lemma In_take_drop {A} (x : A) n l : In x (take n l) \/ In x (drop n l) -> In x l.
 Proof. intros H. rewrite <- (take_drop n l). apply in_or_app. exact H. Qed.
 
+Lemma kind_num_lt k : kind_num k < 4.
+Proof. destruct k as [|[]]; cbn; lia. Qed.
+Lemma akey_mod k a : akey k a `mod` 4 = kind_num k.
+Proof. unfold akey. symmetry. apply (N.mod_unique _ 4 a); [apply kind_num_lt|reflexivity]. Qed.
+Lemma akey_div k a : akey k a `div` 4 = a.
+Proof. unfold akey. symmetry. apply (N.div_unique _ 4 a (kind_num k)); [apply kind_num_lt|reflexivity]. Qed.
+Lemma akey_inj k a a' : akey k a = akey k a' -> a = a'.
+Proof. intros H. rewrite <- (akey_div k a), <- (akey_div k a'), H. reflexivity. Qed.
+Lemma akey_kind_ne k k' a a' : kind_num k <> kind_num k' -> akey k a <> akey k' a'.
+Proof. intros Hne H. apply Hne. rewrite <- (akey_mod k a), <- (akey_mod k' a'), H. reflexivity. Qed.
+
+(* assets_of_kind lists exactly the store entries of that kind *)
+Lemma assets_of_kind_In pr k a v :
+  In (a, v) (assets_of_kind pr k) <-> a_store pr !! akey k a = Some v.
+Proof.
+  unfold assets_of_kind. rewrite <- elem_of_list_In, elem_of_list_omap. split.
+  - intros ([key v'] & Hin & Hf). apply elem_of_map_to_list in Hin.
+    destruct (key `mod` 4 =? kind_num k) eqn:Em; [|discriminate]. injection Hf as <- <-.
+    apply N.eqb_eq in Em.
+    assert (Hk : key = akey k (key `div` 4)).
+    { unfold akey. rewrite <- Em. apply (N.div_mod' key 4). }
+    rewrite <- Hk. exact Hin.
+  - intros Hl. exists (akey k a, v). split; [apply elem_of_map_to_list; exact Hl|].
+    rewrite akey_mod, N.eqb_refl, akey_div. reflexivity.
+Qed.
+
+Lemma view_assets_of_kind_class a b c :
+  a_store a = a_store b -> assets_of_kind a (KClass c) = assets_of_kind b (KClass c).
+Proof. intros H. unfold assets_of_kind. rewrite H. reflexivity. Qed.
+
+Lemma serve_all_store pr c : a_store (serve_all pr c).1 = a_store pr.
+Proof. unfold serve_all. destruct (class_enabled pr (KClass c)); reflexivity. Qed.
+
+Lemma download_pending_ext a b c x : d_pending a = d_pending b -> download_pending a c x <-> download_pending b c x.
+Proof. intros H. unfold download_pending. rewrite H. reflexivity. Qed.
+
 Lemma build_full_sync_msgs pr m :
   In m (build_full_sync pr).2 ->
   (exists e en, p_ents pr !! e = Some en /\ In m (snapshot_entity_msgs pr e en)) \/
   (exists e en, p_ents pr !! e = Some en /\ In m (snapshot_parent_msgs pr e en)) \/
   (t_mat pr = true /\ exists a v, m = MMaterial a v) \/
-  (exists c a, class_enabled pr (KClass c) = true /\ m = MAsset c a (p_id pr)).
+  (exists c a o, class_enabled pr (KClass c) = true /\ m = MAsset c a o /\
+     ((o = p_id pr /\ ~ download_pending pr c a /\ exists v, In (a, v) (assets_of_kind pr (KClass c))) \/
+      In (a, o) (pending_of pr c))).
 Proof.
   unfold build_full_sync. cbv zeta.
   pose proof (serve_all_view pr AImage) as V1.
+  pose proof (serve_all_store pr AImage) as S1.
   pose proof (serve_all_msgs pr AImage m) as M1.
   destruct (serve_all pr AImage) as [pr1 mi].
   pose proof (serve_all_view pr1 AMesh) as V2.
+  pose proof (serve_all_store pr1 AMesh) as S2.
   pose proof (serve_all_msgs pr1 AMesh m) as M2.
   destruct (serve_all pr1 AMesh) as [pr2 me].
   pose proof (serve_all_view pr2 AAudio) as V3.
@@ -194,15 +458,22 @@ Proof.
     exists e, en. split; [apply In_map_to_list; exact Hx|apply (In_take_drop _ 1); right; exact Hy].
   - right. left. apply In_concat_fmap in H as ([e en] & Hx & Hy).
     exists e, en. split; [apply In_map_to_list; exact Hx|exact Hy].
-  - right. right. right. destruct (M1 H) as (Hc & a & ->). exists AImage, a. split; [exact Hc|reflexivity].
+  - right. right. right. destruct (M1 H) as (Hc & a & o & -> & Hj). exists AImage, a, o.
+    split; [exact Hc|]. split; [reflexivity|exact Hj].
   - right. right. left. unfold snapshot_material_msgs in H.
     rewrite (view_mat _ _ V1) in H. destruct (t_mat pr); [|destruct H]. split; [reflexivity|].
     apply elem_of_list_In in H. apply elem_of_list_fmap in H as ([a v] & -> & _). eauto.
-  - right. right. right. destruct (M2 H) as (Hc & a & ->). exists AMesh, a.
-    rewrite (view_class_enabled _ _ _ V1) in Hc. rewrite (view_id _ _ V1). split; [exact Hc|reflexivity].
-  - right. right. right. destruct (M3 H) as (Hc & a & ->). exists AAudio, a.
+  - right. right. right. destruct (M2 H) as (Hc & a & o & -> & Hj). exists AMesh, a, o.
+    rewrite (view_class_enabled _ _ _ V1) in Hc. split; [exact Hc|]. split; [reflexivity|].
+    rewrite (view_id _ _ V1), (view_pending_of _ _ _ V1), (view_assets_of_kind_class _ _ _ S1),
+      (download_pending_ext _ _ _ _ (view_pending _ _ V1)) in Hj. exact Hj.
+  - right. right. right. destruct (M3 H) as (Hc & a & o & -> & Hj). exists AAudio, a, o.
     rewrite (view_class_enabled _ _ _ V2), (view_class_enabled _ _ _ V1) in Hc.
-    rewrite (view_id _ _ V2), (view_id _ _ V1). split; [exact Hc|reflexivity].
+    split; [exact Hc|]. split; [reflexivity|].
+    rewrite (view_id _ _ V2), (view_id _ _ V1), (view_pending_of _ _ _ V2), (view_pending_of _ _ _ V1),
+      (view_assets_of_kind_class _ _ _ S2), (view_assets_of_kind_class _ _ _ S1),
+      (download_pending_ext _ _ _ _ (view_pending _ _ V2)),
+      (download_pending_ext _ _ _ _ (view_pending _ _ V1)) in Hj. exact Hj.
 Qed.
 
 (* what sync_detect::<t> reads when it queues an entry: a synchronised entity, carrying t, not
@@ -280,6 +551,14 @@ Lemma frame_unfold pr o :
                  end).
 Proof. intros Hp. unfold frame. rewrite Hp. reflexivity. Qed.
 
+Lemma In_remove1_pending c a x l : In x (remove1_pending c a l) -> In x l.
+Proof.
+  induction l as [|y l IH]; cbn [remove1_pending]; [tauto|].
+  destruct ((kind_num (KClass y.1.1) =? kind_num (KClass c)) && (y.1.2 =? a)).
+  - intros H. right. exact H.
+  - intros [H|H]; [left; exact H|right; apply IH; exact H].
+Qed.
+
 Section invariant.
   (* the configuration of the peer during the frame *)
   Variable types : list tyid.
@@ -303,6 +582,8 @@ Section invariant.
   Variable appP : cmd -> Prop.
   (* the keys under which deferred commands may be buffered *)
   Variable keyOK : N -> Prop.
+  (* the downloads that were under way at the start of the frame: (class, id, owner to fetch it from) *)
+  Variable pendP : aclass -> uuid -> peer -> Prop.
 
   Hypothesis inb_spawn : forall u, inb (MSpawn u) -> known u.
   Hypothesis inb_vt : forall u t v, inb (MComp u t v) -> vt t v.
@@ -325,7 +606,7 @@ Section invariant.
     | MParented c p => inb m \/ (known c /\ known p)
     | MComp u t v => inb m \/ qP (u, t, v) \/ (known u /\ comp_opted t /\ not_skin v)
     | MMaterial a v => inb m \/ mat = true
-    | MAsset c a owner => inb m \/ (class_on c = true /\ owner = me)
+    | MAsset c a owner => inb m \/ (class_on c = true /\ (owner = me \/ pendP c a owner))
     | MPromote | MNewHost _ | MReqInit | MFinInit => True
     end.
 
@@ -364,16 +645,17 @@ Section invariant.
     i_e2u : forall e u, t_e2u pr !! e = Some u -> known u /\ keyP e;
     i_ents : forall e en, p_ents pr !! e = Some en -> ent_ok e en;
     i_next : lo <= p_next_ent pr;
+    i_pend : forall c a o, In (c, a, o) (d_pending pr) -> inb (MAsset c a o) \/ pendP c a o;
   }.
 
   Lemma Inv_view pr pr' : view pr = view pr' -> Inv pr -> Inv pr'.
   Proof.
-    unfold view. intros Hv [? ? ? ? ? ? ? ? ? ? ? ? ? ? ? ?].
-    injection Hv as E1 E2 E3 E4 E5 E6 E7 E8 E9 E10 E11 E12 E13 E14 E15.
+    unfold view. intros Hv [? ? ? ? ? ? ? ? ? ? ? ? ? ? ? ? ?].
+    injection Hv as E1 E2 E3 E4 E5 E6 E7 E8 E9 E10 E11 E12 E13 E14 E15 E16.
     constructor;
       first [rewrite <- E1|rewrite <- E2|rewrite <- E3|rewrite <- E4|rewrite <- E5|rewrite <- E6
             |rewrite <- E7|rewrite <- E8|rewrite <- E9|rewrite <- E10|rewrite <- E11|rewrite <- E12
-            |rewrite <- E13|rewrite <- E14|rewrite <- E15]; assumption.
+            |rewrite <- E13|rewrite <- E14|rewrite <- E15|rewrite <- E16]; assumption.
   Qed.
 
   Ltac irr := (eapply Inv_view; [|eassumption]; reflexivity).
@@ -420,6 +702,11 @@ Section invariant.
 
   Lemma Inv_set_next pr n :
     Inv pr -> lo <= n -> Inv (pr <| p_next_ent := n |>).
+  Proof. intros [] Ho. constructor; try assumption. Qed.
+
+  Lemma Inv_set_pending pr q :
+    Inv pr -> (forall c a o, In (c, a, o) q -> inb (MAsset c a o) \/ pendP c a o) ->
+    Inv (pr <| d_pending := q |>).
   Proof. intros [] Ho. constructor; try assumption. Qed.
 
   (* ---- primitives ---- *)
@@ -601,9 +888,14 @@ Section invariant.
         apply snapshot_parent_msgs_In in Hin as (su & q & tk & u & pu & _ & _ & Hu & Hp & ->).
         right. split; [eapply i_e2u; eassumption|eapply i_e2u; eassumption].
       + destruct H as (Hmat & a & v & ->). right. rewrite <- (i_mat pr HI). exact Hmat.
-      + destruct H as (c & a & Hc & ->). right. split; [|apply (i_id pr HI)].
-        unfold class_enabled in Hc. unfold class_on.
-        destruct c; [rewrite <- (i_mesh pr HI)|rewrite <- (i_mat pr HI)|rewrite <- (i_audio pr HI)]; exact Hc.
+      + destruct H as (c & a & o & Hc & -> & Hj).
+        assert (Hon : class_on c = true).
+        { unfold class_enabled in Hc. unfold class_on.
+          destruct c; [rewrite <- (i_mesh pr HI)|rewrite <- (i_mat pr HI)|rewrite <- (i_audio pr HI)]; exact Hc. }
+        destruct Hj as [(-> & _)|Hp].
+        * right. split; [exact Hon|]. left. apply (i_id pr HI).
+        * apply pending_of_In in Hp. destruct (i_pend pr HI _ _ _ Hp) as [Hi|Hq]; [left; exact Hi|].
+          right. split; [exact Hon|]. right. exact Hq.
   Qed.
 
   (* ---- the queue of detected changes goes out (the system, and since the repair of S21 the first
@@ -803,13 +1095,17 @@ Section invariant.
     destruct k as [|c].
     - destruct server; [apply Inv_broadcast|apply Inv_send_up]; try exact Ha; right; exact Hk.
     - cbv zeta. destruct server; [apply Inv_broadcast|apply Inv_send_up]; try irr;
-        right; (split; [exact Hk|exact (i_id a Ha)]).
+        right; (split; [exact Hk|left; exact (i_id a Ha)]).
   Qed.
 
   Lemma Inv_process_assets pr c done : Inv pr -> Inv (process_assets pr c done).
   Proof.
     intros HI. unfold process_assets. apply foldl_inv; [exact HI|].
-    intros a [[c' a0] v] _ Ha. dm; [|exact Ha]. cbv zeta. unfold insert_asset. irr.
+    intros a [[[c' a0] v] lst] _ Ha. dm; [|exact Ha]. cbv zeta. unfold insert_asset. do 2 peel_irr.
+    apply Inv_set_pending; [irr|]. intros c1 a1 o1 Hin. cbn [d_pending set] in Hin.
+    apply (i_pend a Ha). destruct lst.
+    - apply In_filter_std in Hin as [Hin _]. exact Hin.
+    - eapply In_remove1_pending. exact Hin.
   Qed.
 
   Lemma Inv_promote_reader pr : Inv pr -> Inv (promote_reader pr).
@@ -825,8 +1121,12 @@ Section invariant.
     intros a [e en] _ Ha. repeat dm; try exact Ha. apply (Inv_push_cmd _ _ _ Hk); [exact Ha|exact I].
   Qed.
 
-  Lemma Inv_request_asset pr c a owner : Inv pr -> Inv (request_asset pr c a owner).
-  Proof. intros HI. unfold request_asset. irr. Qed.
+  Lemma Inv_request_asset pr c a owner : Inv pr -> inb (MAsset c a owner) -> Inv (request_asset pr c a owner).
+  Proof.
+    intros HI Hm. unfold request_asset. apply Inv_set_pending; [exact HI|].
+    intros c1 a1 o1 Hin. apply in_app_or in Hin as [Hin|[Heq|[]]]; [exact (i_pend pr HI _ _ _ Hin)|].
+    injection Heq as <- <- <-. left. exact Hm.
+  Qed.
 
   Lemma Inv_server_received pr k from m : keyOK k -> Inv pr -> inb m -> Inv (server_received pr k from m).
   Proof.
@@ -842,7 +1142,7 @@ Section invariant.
     - (* MComp *) destruct (t_u2e pr !! u) as [e|]; [|exact HI].
       apply (Inv_push_cmd _ _ _ Hk); [exact HI|]. split; [intros _; exact Hm|eapply inb_vt; exact Hm].
     - (* MMaterial *) apply (Inv_push_cmd _ _ _ Hk); [exact HI|]. intros _. exact Hm.
-    - (* MAsset *) apply (Inv_push_cmd _ _ _ Hk); [apply Inv_request_asset; exact HI|exact Hm].
+    - (* MAsset *) apply (Inv_push_cmd _ _ _ Hk); [apply Inv_request_asset; [exact HI|exact Hm]|exact Hm].
     - exact HI.
     - (* MNewHost *) apply (Inv_push_cmd _ _ _ Hk); [|exact I]. apply Inv_relay_except; [|exact I]. irr.
     - apply (Inv_push_cmd _ _ _ Hk); [exact HI|exact I].
@@ -862,7 +1162,7 @@ Section invariant.
     - (* MComp *) destruct (t_u2e pr !! u) as [e|]; [|exact HI].
       apply (Inv_push_cmd _ _ _ Hk); [exact HI|]. split; [intros Hx; exfalso; apply Hx; reflexivity|eapply inb_vt; exact Hm].
     - (* MMaterial *) apply (Inv_push_cmd _ _ _ Hk); [exact HI|]. intros Hx. exfalso. apply Hx. reflexivity.
-    - (* MAsset *) apply Inv_request_asset; exact HI.
+    - (* MAsset *) apply Inv_request_asset; [exact HI|exact Hm].
     - apply (Inv_push_cmd _ _ _ Hk); [exact HI|exact I].
     - (* MNewHost *) apply (Inv_push_cmd _ _ _ Hk); [|exact I]. apply (Inv_push_cmd _ _ _ Hk); [|exact I]. irr.
     - exact HI.
